@@ -382,6 +382,10 @@ where
     type Item = EphemeralMessage<M>;
 
     fn poll_next(mut self: Pin<&mut Self>, cx: &mut Context<'_>) -> Poll<Option<Self::Item>> {
+        // Verification hook: one event per poll of the inner gossip subscription.
+        #[cfg(p2panda_p2panda_verif)]
+        p2panda_core::verif::emit("ephemeral.sub.inner_poll");
+
         match ready!(self.inner.poll_next_unpin(cx)) {
             // Check encoding & supported version and signature during deserialisation.
             Some(Ok(bytes)) => match WrappedMessage::from_bytes(&bytes) {
